@@ -672,9 +672,23 @@ def analyse(unit, gen_path, gen_text, res):
             canary = True
             continue
         if ids:
+            pre_of_callee = False
             for cid in ids:
-                failed.setdefault(cid, []).append(rendered)
-            continue
+                c_ = unit.clauses.get(cid)
+                # "precondition not satisfied": the marked clause is a `requires` of the CALLEE; the obligation that
+                # failed is the caller's (its body must establish it at the call site).  It is recorded as a body
+                # obligation of the enclosing function, so that it is reported also when the callee's contract is an
+                # assumption of this unit (such clause ids are not obligations of the unit themselves).
+                if 'precondition not' in msg and c_ is not None and c_.kind in ('requires', 'assumed') and encl in extracted_fns and c_.fn.split('::')[-1] != encl:
+                    src_line = lines[prim_line - 1].strip() if prim_line else ''
+                    h = hashlib.sha256((cid + src_line).encode()).hexdigest()[:8]
+                    panic.append(dict(fn=encl, line=prim_line, src=src_line, msg='precondition %s of the callee is not established at this call' % cid, rendered=rendered,
+                                      id='C08.%s.%s.nopanic@%s' % (unit.id, encl, h)))
+                    pre_of_callee = True
+                else:
+                    failed.setdefault(cid, []).append(rendered)
+            if pre_of_callee or ids:
+                continue
         if encl in unit.lemmas:
             failed.setdefault(unit.lemmas[encl], []).append(rendered)
             continue
@@ -872,6 +886,7 @@ def run_unit(uid, tier='quick', repo=REPO, keep=None, seed=0):
                 r['termination'] = [p_ for p_ in r['termination'] if p_['id'] not in unknown]
                 an = dict(an, failed=r['failed'], panic=r['panic'], termination=r['termination'])
                 r['downgraded_unknown_callees'] = unknown
+                r['not_judged'] = sorted(set(r.get('not_judged', [])) | set(unknown))
                 notes = notes + ['modular proof not applicable: %s now call(s) %s, which the recorded proof does not know (no contract in this unit); obligations not judged: %s'
                                  % (', '.join(sorted(set(u.clauses[c].fn for c in unknown if c in u.clauses))) or 'a function under contract',
                                     ', '.join(sorted(set(x for v in unknown.values() for x in v))), ', '.join(sorted(unknown)))]
@@ -888,6 +903,7 @@ def run_unit(uid, tier='quick', repo=REPO, keep=None, seed=0):
                 # violation (a renamed local or a reformatted line would do the same).  Undecided, never an alarm.
                 r['status'] = 'undecided'
                 r['downgraded'] = dict(failed=sorted(an['failed'].keys()), panic=[p['id'] for p in an['panic']])
+                r['not_judged'] = sorted(set(r.get('not_judged', [])) | set(an['failed'].keys()) | set(p['id'] for p in an['panic']))
                 r['notes'] = notes + ['proof scaffolding no longer fits the code (proof steps lost or no longer type-checking: %s); obligations not discharged without them: %s'
                                       % (', '.join(scaffolding_lost), ', '.join(sorted(an['failed'].keys()) + [p['id'] for p in an['panic']]))]
                 r['failed'], r['panic'], r['termination'] = {}, [], []
